@@ -106,7 +106,7 @@ def tree_hash(with_tests=False):
     if with_tests:
         rels += ["test", "examples"]
     _hash_files(h, REPO, rels)
-    _hash_files(h, VERIF, ["drivers", "tools", "witness"])
+    _hash_files(h, VERIF, ["tools", "drivers/drv.hpp"])
     if OVERLAY:
         _hash_files(h, OVERLAY, ["."])
     h.update(REPO.encode())
@@ -122,7 +122,7 @@ def cache_dir(with_tests=False):
         # prune old cache entries: keep the 3 most recent
         try:
             ents = sorted((os.path.join(base, e) for e in os.listdir(base)), key=os.path.getmtime)
-            for e in ents[:-3]:
+            for e in ents[:-6]:
                 shutil.rmtree(e, ignore_errors=True)
         except OSError:
             pass
@@ -241,7 +241,12 @@ def overlay_unit(path):
 # extraction
 
 def _unit_key(path):
-    return hashlib.sha1(path.encode()).hexdigest()[:10] + "-" + os.path.basename(path)
+    h = hashlib.sha1(path.encode())
+    if not path.startswith(REPO + "/"):
+        # sources outside /repo (drivers) are not covered by the tree hash: key on content
+        with open(path, "rb") as f:
+            h.update(f.read())
+    return h.hexdigest()[:10] + "-" + os.path.basename(path)
 
 
 def roots():
